@@ -291,6 +291,63 @@ def buffer_semantics(cx, rep):
     except Undecided as exc:
         rep.unknown('BufferAudioSource.close: %s' % exc)
 
+def check_stdin_not_closed(cx, rep):
+    """closing the standard-input source ends the source, not the process's standard input: a history may close and reopen it
+    (and a second source may be built on it); so the effective close() never calls close() on the stream object taken from sys.stdin"""
+    c = cx.cls('io', 'StdinAudioSource', required=False)
+    if c is None:
+        return
+    from ..semantic import deep_leaves, Undecided
+    is_stdin = lambda t: any(x[0] == 'ext' and x[1].startswith('sys.stdin') for x in walk(t))
+    fields = set()
+    for f, ds in cx.field_defs('io', 'StdinAudioSource').items():
+        if any(is_stdin(d['value']) for d in ds):
+            fields.add(f)
+    if not fields:
+        rep.unknown('StdinAudioSource: no field holds the standard-input stream')
+        return
+    cl = cx.model.find_method('io', c, 'close')
+    dl = cx.model.find_method('io', c, '__del__')
+    n = 0
+    for tag, r in (('close', cl), ('__del__', dl)):
+        if r is None:
+            continue
+        try:
+            lv = deep_leaves(cx, r[0], c, r[2], inline_super=True)
+        except Undecided as exc:
+            rep.unknown('StdinAudioSource.%s: %s' % (tag, exc))
+            continue
+        n += 1
+        closes = [e for l in lv for e in l.effects if e[0] == 'call' and e[1][0] == 'call' and e[1][1][0] == 'attr' and e[1][1][2] == 'close' and (is_stdin(e[1][1][1]) or (e[1][1][1][0] == 'attr' and e[1][1][1][1] == ('self',) and e[1][1][1][2] in fields))]
+        rep.ob('closing (or discarding) the standard-input source does not close the process\'s standard input', not closes, cx.where(r[0], closes[0][3]) if closes else cx.where(r[0], r[2]), 'StdinAudioSource.%s:closes-stdin' % tag,
+               '%s() calls %s' % (tag, show(closes[0][1])[:60]) if closes else None, sample=dict(source='StdinAudioSource', method=tag, stdin_fields=sorted(fields)))
+    rep.floor('stdin source shutdown paths examined', n, 1)
+
+
+def check_no_memoised_io(cx, rep):
+    """a function whose result depends on what a file contains NOW (it opens / reads a file) is not memoised across calls: a cached
+    header or content goes stale when the file is rewritten (save, then load the same name again), so what is loaded is no longer
+    what was saved"""
+    CACHES = ('lru_cache', 'cache', 'cached_property')
+    n = 0
+    for mod in cx.code_mods():
+        tree = cx.model.mods[mod]['tree']
+        for fn in ast.walk(tree):
+            if not isinstance(fn, (ast.FunctionDef, ast.AsyncFunctionDef)):
+                continue
+            n += 1
+            decos = []
+            for d in fn.decorator_list:
+                d0 = d.func if isinstance(d, ast.Call) else d
+                decos.append(d0.id if isinstance(d0, ast.Name) else (d0.attr if isinstance(d0, ast.Attribute) else ''))
+            if not any(d in CACHES for d in decos):
+                continue
+            opens = [c for c in ast.walk(fn) if isinstance(c, ast.Call) and ((isinstance(c.func, ast.Name) and c.func.id == 'open') or (isinstance(c.func, ast.Attribute) and c.func.attr in ('open', 'read', 'readframes', 'getsize', 'getmtime', 'stat')))]
+            rep.ob('no result that depends on the current content of a file is memoised across calls', not opens, cx.where(mod, fn), '%s:%s' % (mod, fn.name),
+                   '%s is cached (%s) and reads the file system (%s)' % (fn.name, [d for d in decos if d in CACHES], ast.unparse(opens[0])[:50] if opens else ''))
+    rep.floor('functions scanned for memoised file access', n, 50)
+
+
 def check_buffered_open(cx, rep):
     """the byte stream a file source reads from is a BUFFERED binary reader: read(n) of io.BufferedReader returns n bytes unless
     the stream ends, whereas a raw (buffering=0) file object returns whatever one system call delivers -- short chunks on pipes,
@@ -515,7 +572,7 @@ def check(repo, rep):
         try:
             # constant field values after construction (stores of constants on every non-raising constructor path, base constructors inlined)
             consts = None
-            for l in deep_leaves(cx, ini[0], c, ini[2]):
+            for l in deep_leaves(cx, ini[0], c, ini[2], inline_super=True):
                 if l.outcome == 'raise':
                     continue
                 cur = {}
@@ -524,7 +581,7 @@ def check(repo, rep):
                         cur[e[1][2]] = e[2]
                 consts = cur if consts is None else {k: v for k, v in consts.items() if cur.get(k) == v}
             consts = {k: v for k, v in (consts or {}).items() if v[0] == 'c'}
-            for l in deep_leaves(cx, iso[0], c, iso[2]):
+            for l in deep_leaves(cx, iso[0], c, iso[2], inline_super=True):
                 if l.outcome != 'return' or l.conds:
                     raise Undecided('is_open() has several paths')
                 ev_ = evaluator({('attr', ('self',), k): v[1] for k, v in consts.items()})
@@ -665,6 +722,8 @@ def check(repo, rep):
         rep.ob('%s calls check_audio_data unconditionally' % qual, okall, cx.where(mod, cx.fn(mod, qual)), '%s:check_audio_data' % qual)
     rep.floor('read() implementations analysed', nread, 5)
     check_buffered_open(cx, rep)
+    check_no_memoised_io(cx, rep)
+    check_stdin_not_closed(cx, rep)
     check_roles(cx, rep, lambda p: cx.in_module(p['where'], 'io'), floor=60)
     rep.explanation = ('Sibling agreement of the read() implementations of every concrete AudioSource subclass found in the class table (5 today), each resolved through its MRO and decided on every path: '
                        'the open test is the first test and its failing branch raises AudioIOError; every returned value is None or was tested non-empty on that path (never b""); file sources request '
